@@ -464,6 +464,8 @@ def _mini_parse(text):
 def check_conv(ctx, case):
     m = _pg()
     qt, ut, x = case['q'], case['u'], case['x']
+    if not case.get('qt') and isinstance(x, (int, float)) and (int(abs(x)) % 3 == 0):
+        check_array_conversion(ctx, case)
     try:
         mq = model_of_text(qt, case.get('qt'))
         mu = model_of_text(ut, case.get('ut'))
@@ -728,6 +730,33 @@ def enum_fractional(tier):
                 r = D(a) * 3 - D(t)
                 if r != 0:
                     yield dict(kind='fractional', text='(%s^%s)^3/%s^%s' % (u, a, u, r), target='%s^%s' % (u, t), ratio=1.0)
+
+
+def check_array_conversion(ctx, case):
+    """numbers given as a numpy array (on either side of the unit, and through with_units) convert element by element"""
+    import numpy as np
+    from pgradd.Units import with_units
+    m = _pg()
+    a, b = case['q'], case['u']
+    xs = np.array([1.0, case['x'] if case['x'] else 2.0, -3.5])
+    ctx.case(nontrivial=True, key=['array', a, b, case['x']], sample=dict(quantity_units=a, target=b))
+    try:
+        ua, ub = m['eval_qty'](a), m['eval_qty'](b)
+        scalars = [(float(x) * ua).in_units(b) for x in xs]
+    except Exception:
+        ctx.event('array-conversion:scalar-path-not-applicable')
+        return
+    forms = {'array*unit': lambda: xs * ua, 'unit*array': lambda: ua * xs, 'with_units(array)': lambda: with_units(xs, a), 'with_units(list)': lambda: with_units(list(xs), a)}
+    for name, mk in forms.items():
+        try:
+            got = mk().in_units(b)
+        except Exception as e:
+            ctx.fail('array-conversion:%s:raises-%s' % (name, type(e).__name__), '(%s of %r in %r).in_units(%r) raised %s: %s' % (name, list(xs), a, b, type(e).__name__, str(e)[:120]))
+            continue
+        ctx.count()
+        ctx.event('array-conversion:%s' % name)
+        if np.shape(got) != (3,) or any(abs(float(g) - float(w)) > 1e-12 * max(abs(float(w)), 1e-300) for g, w in zip(got, scalars)):
+            ctx.fail('array-conversion:%s' % name, '(%s of %r in %r).in_units(%r) = %r, element by element %r' % (name, list(xs), a, b, got, scalars))
 
 
 def check_fractional(ctx, case):
